@@ -106,6 +106,7 @@ type Options struct {
 	MaxStates int64
 	OpTimeout time.Duration
 	OnHang    func([]*Summary)
+	OutFile   string // where a hang dumps the partial summaries before exiting with status 3
 }
 
 type collector struct {
@@ -202,7 +203,11 @@ func Run(r io.Reader, module string, ads []Adapter, opt Options) ([]*Summary, er
 							opt.OnHang(res)
 						}
 						b, _ := json.Marshal(res)
-						fmt.Println(string(b))
+						if opt.OutFile != "" {
+							_ = os.WriteFile(opt.OutFile, b, 0644)
+						} else {
+							fmt.Println(string(b))
+						}
 						os.Exit(3)
 					}
 				}
